@@ -985,7 +985,7 @@ fn main() {
     let doc = Doc { root: &doc_value };
     let mut out = Out::new();
     let mut r = Rng::from_env(7);
-    let n_valid = if is_thorough() { 40 } else { 8 };
+    let n_valid = if is_thorough() { 200 } else { 24 };
     let mut id = 0u64;
 
     for ep in &eps {
